@@ -587,6 +587,10 @@ def _replay_roundtrip(inp):
                     problems.append(f"identifier {q.unique_id} != {uid}")
                 if len(q.points) != len(verts):
                     problems.append(f"{len(q.points)} points loaded, {len(verts)} saved")
+                elif not np.array_equal(np.asarray(q.points, dtype=float), np.asarray(verts, dtype=float)):
+                    k_ = int(np.argmax(np.any(np.asarray(q.points, dtype=float) != np.asarray(verts, dtype=float), axis=1)))
+                    problems.append(f"vertex {k_} comes back as {tuple(float(v) for v in q.points[k_])!r}, saved {verts[k_]!r} "
+                                    f"(an event within that distance of an edge changes sides)")
                 elif not np.array_equal(q.filter(xs, ys), before):
                     problems.append("classification of the test points changed")
                 if problems:
